@@ -15,8 +15,10 @@ META = {
     "bounds": {
         "quick": {"cat_valid": 2, "missing": "one missing category at every position of rows / columns / table", "mr_items": 2,
                   "pairs": "CAT x CAT, CAT x MR, MR x CAT, MR x MR; 3-D with CAT and MR table dimension (one scenario per partition)",
-                  "subtotals": "one bottom-anchored row / column subtotal (must be NaN)", "data": "all pattern masses m,u >= 0"},
-        "thorough": {"cat_valid": 3, "missing": "up to 2 missing categories", "mr_items": "2-3", "data": "all pattern masses"},
+                  "subtotals": "one bottom-anchored row / column subtotal (must be NaN)", "data": "all pattern masses m,u >= 0",
+                  "wire-level (one unknown per wire cell)": "CAT(3) x CAT(4) with two missing categories each, CAT(3) x MR(3), MR(3) x CAT(3)"},
+        "thorough": {"cat_valid": 3, "missing": "up to 2 missing categories", "mr_items": "2-3", "data": "all pattern masses",
+                     "wire-level (one unknown per wire cell)": "MR(3) x MR(3), CAT(5) x CAT(5), 3-D CAT(3) x CAT(3) x CAT(3), CAT(3) x MR(3) x CAT(3), MR(3) x CAT(3) x MR(2)"},
     },
     "assumptions": ["A1: pattern masses m[p] >= 0, u[p] >= 0", "tabulator models the backend wire layout; floats are reals"],
     "outside": ["categorical-array dimensions (column index is not defined across sub-variables)", "sizes beyond the bounds"],
@@ -36,8 +38,8 @@ def index_obs(eng, world, part, tax, t, rax, cax, tag="", weighted=True):
             cnt = world.mass(lambda p: extra(p) and rax.member(i, p) and cax.member(j, p), wm)
             colbase = world.mass(lambda p: extra(p) and cax.member(j, p) and rax.valid(i, p), wm)
             # unconditional share of the row element: regardless of the column answer (valid or missing)
-            members = world.mass(lambda p: extra(p) and rax.member(i, p), wm)
-            eligible = world.mass(lambda p: extra(p) and rax.valid(i, p), wm)
+            members = world.mass(lambda p: extra(p) and rax.member(i, p) and cax.asked(j, p), wm)
+            eligible = world.mass(lambda p: extra(p) and rax.valid(i, p) and cax.asked(j, p), wm)
             colprop = C.div(cnt, colbase)
             share = C.div(members, eligible)
             row.append(C.div(colprop, share) * 100)
@@ -45,15 +47,17 @@ def index_obs(eng, world, part, tax, t, rax, cax, tag="", weighted=True):
     return [Obs(tag + "column_index", part.column_index, C.to_array(rows))]
 
 
-def two_d(eng, rows, cols, weighted=True):
-    world = C.World(eng, [rows, cols])
+def two_d(eng, rows, cols, weighted=True, wire=False):
+    from .wire import world_for
+    world = world_for(eng, [rows, cols], wire)
     part = Cube(world.response(weighted=weighted, assume_weighted=True)).partitions[0]
     _, rax, cax = C.slice_axes(world)
     return index_obs(eng, world, part, None, None, rax, cax, weighted=weighted)
 
 
-def three_d(eng, table, rows, cols, k=0):
-    world = C.World(eng, [table, rows, cols])
+def three_d(eng, table, rows, cols, k=0, wire=False):
+    from .wire import world_for
+    world = world_for(eng, [table, rows, cols], wire)
     part = Cube(world.response(assume_weighted=True)).partitions[k]
     tax, rax, cax = C.slice_axes(world)
     return index_obs(eng, world, part, tax, k, rax, cax, tag="p%d." % k)
@@ -129,7 +133,15 @@ def specs(tier):
         add("3d cat(missing first) x cat x cat p%d" % k, "three_d", dict(table=V("cat", "t", 2, (0,)), rows=V("cat", "a", 2, (1,)), cols=V("cat", "b", 2, (1,)), k=k))
     add("3d mr x cat x cat p1", "three_d", dict(table=V("mr", "t", 2), rows=V("cat", "a", 2, (1,)), cols=V("cat", "b", 2, (1,)), k=1))
     add("3d cat(missing middle) x mr x cat p1", "three_d", dict(table=V("cat", "t", 2, (1,)), rows=V("mr", "a", 2), cols=V("cat", "b", 2, (1,)), k=1))
+    add("wire cat3(0,2) x cat4(1,3)", "two_d", dict(rows=V("cat", "a", 3, (0, 2)), cols=V("cat", "b", 4, (1, 3)), wire=True))
+    add("wire cat3 x mr3", "two_d", dict(rows=V("cat", "a", 3, (1,)), cols=V("mr", "b", 3), wire=True))
+    add("wire mr3 x cat3", "two_d", dict(rows=V("mr", "a", 3), cols=V("cat", "b", 3, (3,)), wire=True))
     if tier == "thorough":
+        add("wire mr3 x mr3", "two_d", dict(rows=V("mr", "a", 3), cols=V("mr", "b", 3), wire=True))
+        add("wire cat5(0,3) x cat5(2,)", "two_d", dict(rows=V("cat", "a", 5, (0, 3)), cols=V("cat", "b", 5, (2,)), wire=True))
+        add("wire 3d cat3(1,) x cat3 x cat3 p2", "three_d", dict(table=V("cat", "t", 3, (1,)), rows=V("cat", "a", 3, (0,)), cols=V("cat", "b", 3, (2,)), k=2, wire=True))
+        add("wire 3d cat3(0,2) x mr3 x cat3 p1", "three_d", dict(table=V("cat", "t", 3, (0, 2)), rows=V("mr", "a", 3), cols=V("cat", "b", 3, (1,)), k=1, wire=True))
+        add("wire 3d mr3 x cat3 x mr2 p2", "three_d", dict(table=V("mr", "t", 3), rows=V("cat", "a", 3, (1,)), cols=V("mr", "b", 2), k=2, wire=True))
         add("cat3(0,2) x cat3(1,3)", "two_d", dict(rows=V("cat", "a", 3, (0, 2)), cols=V("cat", "b", 3, (1, 3))), max_paths=500)
         add("cat3 x mr", "two_d", dict(rows=V("cat", "a", 3, (1,)), cols=V("mr", "b", 2)), max_paths=500)
         add("mr3 x cat", "two_d", dict(rows=V("mr", "a", 3), cols=V("cat", "b", 2, (1,))), max_paths=500)
